@@ -200,7 +200,7 @@ type End struct {
 // MatchChains decomposes the invocation log into one traversal per expected
 // chain (brute force with backtracking) and checks C01's order, identity and
 // at-most-once rules. With allowPartial (cancelled context) a chain may be
-// absent or stop early. It returns the traversal ends.
+// absent (never started); a started one is complete. It returns the traversal ends.
 func (sc *Scenario) MatchChains(o *Obs, allowPartial bool) ([]End, string) {
 	invs := o.Log.Invs()
 	if o.Log.Overflow() {
@@ -254,8 +254,9 @@ func (sc *Scenario) MatchChains(o *Obs, allowPartial bool) ([]End, string) {
 				p := invs[prev]
 				return finish(End{Pipe: ch.Pipe, Complete: idOf(ch, k-1), Sink: spec[p.Node].Typ == el.NodeTypeSink, Full: true})
 			}
-			if allowPartial {
-				// the traversal may simply not have got this far
+			if allowPartial && k == 0 {
+				// under cancellation a pipeline may not have been started at all; a traversal that was
+				// started still obeys the rules: what follows node k runs iff node k returned an event
 				if finish(End{Pipe: ch.Pipe}) {
 					return true
 				}
